@@ -82,9 +82,42 @@ def step_has_ftype(step, names):
 COMPUTING = ("mutate", "summarize")
 
 
+# Operators whose result is null as soon as one column argument is null.  A column computed from such operators only
+# is null for the padded rows of an outer join no matter whether SQL evaluates it before or after the join.
+STRICT_OPS = {
+    "add", "sub", "mul", "truediv", "floordiv", "mod", "pow", "neg", "pos", "abs", "round", "floor", "ceil",
+    "eq", "ne", "lt", "le", "gt", "ge", "invert", "xor", "clip",
+    "exp", "log", "sqrt", "sin", "cos", "tan", "atan", "log10", "cbrt", "asin", "acos",
+    "str.contains", "str.ends_with", "str.starts_with", "str.len", "str.lower", "str.upper", "str.strip",
+    "str.replace_all", "str.slice",
+    "dt.year", "dt.month", "dt.day", "dt.hour", "dt.minute", "dt.second", "dt.day_of_week", "dt.day_of_year",
+    "dt.millisecond", "dt.microsecond",
+}
+
+
+def expr_null_strict(e):
+    """True if the expression is literal-only (the library wraps such columns in a subquery itself) or built from
+    null-propagating operators only."""
+    nodes = list(ir.walk_expr(e))
+    if not any(nd[0] == "col" for nd in nodes):
+        return True
+    for nd in nodes:
+        if nd[0] in ("case", "map", "shared", "marker"):
+            return False
+        if nd[0] == "fn" and (nd[1] not in STRICT_OPS or (len(nd) > 3 and nd[3])):
+            return False
+    return True
+
+
 def side_has_computed(case, var):
-    """Does the lineage of `var` contain a verb that computes columns (mutate/summarize)?"""
-    return any(s["verb"] in COMPUTING for s in lineage(case, var))
+    """Does the lineage of `var` compute a column that is not null-propagating (K01): a summarize, or a mutate item
+    using fill_null / coalesce / is_null / when / and / or / horizontal or window / aggregate functions ...?"""
+    for s in lineage(case, var):
+        if s["verb"] == "summarize":
+            return True
+        if s["verb"] == "mutate" and not all(expr_null_strict(e) for _, e in s["items"]):
+            return True
+    return False
 
 
 def outer_join_computed(case):
